@@ -17,6 +17,7 @@ DECIDED = [
     "ESCAPE-AGREE: in cJSON's string printer the length pass and the writing pass agree byte for byte: the same characters get two-byte escapes in both, every other character below 32 is counted as and written as a six-byte \\\\uXXXX escape, everything else is copied",
     "HEX4: parse_hex4 maps every character of the three hex-digit classes to its value and lets nothing else contribute (the printer's lower-case \\u00xx escapes read back) - NUM, every character of each class",
     "FIELD-AGREE: the cJSON fields each typed getter (boolean, number, string) reads are fields which the constructor behind aws_json_value_new_* and the parser both store",
+    "UNIQUE-KEYS: objects are compared by key lookup, so every producer of objects must rule out a repeated key: the API add does (GUARD); the parser does not (known finding D29)",
     "NUMBER: numbers print as integers exactly when equal to their integer view, else with 15 significant digits when that text re-reads within a purely relative epsilon of the value, else with 17; NaN / infinities print as null",
     "PRINT-WRAP: the serialisers check the printer's result, append it to the caller's buffer and free it on every path; all cJSON nodes come from the library allocator installed by aws_json_module_init",
 ]
@@ -578,6 +579,34 @@ def field_agree(R, P):
                 "%s reads field(s) %s which the parser never stores" % (getter, miss))
 
 
+def unique_keys(R, P):
+    """UNIQUE-KEYS: cJSON_Compare matches the members of two objects BY KEY (first match of get_object_item), so it is an
+    equivalence only on objects whose keys are distinct.  The API's add refuses a key that is present (GUARD); the other producer
+    of objects, the parser, must rule a repeated key out too - otherwise a parsed tree does not compare equal to its duplicate."""
+    cmp_ = P.fn("cJSON_Compare")
+    po = P.fn("parse_object")
+    if not R.require(cmp_ is not None and po is not None, "cJSON_Compare / parse_object not found"):
+        return
+    R.fn(po)
+    lookups = {"get_object_item", "cJSON_GetObjectItem", "cJSON_GetObjectItemCaseSensitive", "cJSON_HasObjectItem"}
+    keyed = [e for e in cmp_.calls(lookups)]
+    if not keyed:
+        R.ok("UNIQUE-KEYS", "compare-is-positional", "%s in cJSON_Compare()" % CJ, "objects are not compared through key lookups: repeated keys are harmless")
+        return
+    tested = []
+    for e in po.calls(lookups):
+        dom = dominators(po)
+        for b in po.blocks.values():
+            if b.cond is None:
+                continue
+            t = RU.cmp_norm(po, b.cond, True)
+            x = RU.uncast(po, t[0]) if t else None
+            if x is not None and (x is e.node or RU.origin(po, x) is e.node):
+                tested.append(e)
+    R.check(bool(tested), "UNIQUE-KEYS", "parse_object:refuses-repeated-key", "%s:%d in parse_object()" % (CJ, po.line), "the parser looks each new key up among the members read so far and branches on it",
+            "parse_object links every member it reads without looking its key up among the earlier ones, while cJSON_Compare (%s:%d) pairs members by key: {\"a\":1,\"a\":2} parses, and compares unequal to its own duplicate" % (CJ, keyed[0].node.get("loc", [0])[0]))
+
+
 def analyse(ctx, replace=None, only=None):
     R = ctx.R
     units = [u for u in library_units(ctx.ex.repo) if "external" not in u or u.endswith("cJSON.c")]
@@ -593,6 +622,7 @@ def analyse(ctx, replace=None, only=None):
     surrogates(R, P)
     hex4(R, P)
     field_agree(R, P)
+    unique_keys(R, P)
     number_alphabet(R, P)
     duplicate_links(R, P)
     key_compare(R, P)
